@@ -121,6 +121,41 @@ def cases(env, rng, thorough=False, parts=("stacks", "freeze", "circ", "conv")):
                         r += m
                         c += n
                     yield (f"DiagonalStack{shp} ci={ci} co={co} c={cplx}", ("dstack", tuple(shp), ci, co, cplx), check_op(env, Dg, W, "DiagonalStack"))
+    # stacks of operators whose dtypes differ are rejected (ValueError); an accepted one declares the dtypes of
+    # its first operator, so evaluating it shows declared != returned (the failing input of the property)
+    if "stacks" in parts:
+        def gen(indt, outdt, m=2, n=3):
+            Gm = vals(rng, (m, n), G.is_cplx(outdt))
+            Gj = jnp.asarray(Gm, dtype=outdt)
+            return linop.LinearOperator(input_shape=(n,), output_shape=(m,), eval_fn=lambda x, Gj=Gj: Gj @ x,
+                                        adj_fn=lambda y, Gj=Gj, indt=indt: (Gj.conj().T @ y).astype(indt) if G.is_cplx(indt) else (Gj.conj().T @ y).real.astype(indt),
+                                        input_dtype=np.dtype(indt), output_dtype=np.dtype(outdt))
+
+        mixes = [("float64", "float64", "float64", "complex128"), ("float64", "complex128", "float64", "float64"),
+                 ("float32", "float32", "float32", "float64"), ("float64", "float64", "complex128", "complex128"),
+                 ("complex128", "complex128", "float64", "complex128"), ("float64", "float64", "float32", "float64")]
+        for ia, oa, ib, ob in mixes:
+            for kind in ("VerticalStack", "DiagonalStack"):
+                for co in (True, False):
+                    ops = [gen(ia, oa), gen(ib, ob)]
+                    name = f"{kind} mixed dtypes {ia}>{oa} | {ib}>{ob} collapse={co}"
+                    key = ("mixdt", kind, ia, oa, ib, ob, co)
+                    try:
+                        S_ = linop.VerticalStack(ops, collapse_output=co) if kind == "VerticalStack" else linop.DiagonalStack(ops, collapse_input=co, collapse_output=co)
+                    except ValueError:
+                        yield (name, key, None)
+                        continue
+                    except Exception as ex:  # noqa: BLE001
+                        yield (name, key, {"constructor_raised": repr(ex)[:200], "expected": "ValueError", "what": kind})
+                        continue
+                    f = {"accepted_mixed_dtypes": {"operands": [[ia, oa], [ib, ob]], "declared": [np.dtype(S_.input_dtype).name, np.dtype(S_.output_dtype).name]}, "what": kind}
+                    try:
+                        x = env.to_array(np.ones(int(S_.input_size)), G.lst(S_.input_shape), np.dtype(S_.input_dtype).name)
+                        y = S_(x)
+                        f["evaluation"] = {"x": "ones(input_shape, input_dtype)", "declared_output_dtype": np.dtype(S_.output_dtype).name, "returned_dtype": str(y.dtype)}
+                    except Exception as ex:  # noqa: BLE001
+                        f["evaluation"] = {"x": "ones(input_shape, input_dtype)", "raised": repr(ex)[:200]}
+                    yield (name, key, f)
     # DiagonalReplicated: every (input_axis, output_axis) for a 2-d -> 1-d and a 2-d -> 2-d operator
     for cplx in ((False, True) if "stacks" in parts else ()):
         for insh, outsh in (((2, 3), (2,)), ((2, 2), (3, 2)), ((3,), (2,))):
